@@ -70,7 +70,7 @@ def parse(t):
     nc = t[i]; i += 1
     conns = []
     for _ in range(nc):
-        conns.append(tuple(t[i:i + 12])); i += 12
+        conns.append(tuple(t[i:i + 13])); i += 13
     steps = []
     while i < len(t):
         if t[i] == 1:
@@ -79,6 +79,8 @@ def parse(t):
             op = tuple(t[i:i + 10]); i += 10
         elif t[i] == 5:
             op = tuple(t[i:i + 14]); i += 14
+        elif t[i] == 6:
+            op = tuple(t[i:i + 2 + 2 * t[i + 1]]); i += 2 + 2 * t[i + 1]
         else:
             op = tuple(t[i:i + 2]); i += 2
         fors = []
@@ -102,6 +104,10 @@ def fmt_op(op):
         if op[0] == 4:
             r += "[conn %d closed+disconnected at the listenAddrs() call inside shouldRecordObservation: %s]" % (op[8], "delivered" if op[9] else "not reached")
         return r
+    if op[0] == 6:
+        return "listen_set_becomes(%s)[connections stay open]" % [(op[2 + 2 * j], op[3 + 2 * j]) for j in range(op[1])]
+    if op[0] == 7:
+        return "ActivationThresh=%d" % op[1]
     return ("markclosed(conn=%d)" if op[0] == 2 else "disconnect(conn=%d)") % op[1]
 
 
@@ -135,7 +141,7 @@ def describe(t):
     except Exception:
         return {"raw": t[:120]}
     return {"thresh": cfg["thresh"], "mode": "eventbus+notifiee" if cfg["mode"] else "direct calls", "listen(tw,rest)": cfg["listen"], "queries(tw,rest)": cfg["queries"],
-            "conns(ltw,fam,proto,rkind,ip...)": [list(c) for c in cfg["conns"]],
+            "conns(ltw,fam,proto,dir 1=in 2=out,rkind,ip...)": [list(c) for c in cfg["conns"]],
             "steps": ["%s -> AddrsFor=%s Addrs0=%s" % (fmt_op(o), f, a) for o, f, a in steps[:80]]}
 
 
@@ -165,7 +171,7 @@ def key(tag, toks, d):
         idx = d[1] if len(d) > 1 else 0
         which = d[2] if len(d) > 2 else 0
         hist = ";".join(fmt_op(o) for o, _, _ in steps[:idx + 1])
-        return "C17:%s:which=%s:thresh=%d:listen=%s:conns=%s:%s" % (tag, which, cfg["thresh"], cfg["listen"], [c[0:4] + c[4:6] for c in cfg["conns"]], hist)
+        return "C17:%s:which=%s:thresh=%d:listen=%s:conns=%s:%s" % (tag, which, cfg["thresh"], cfg["listen"], [c[0:7] for c in cfg["conns"]], hist)
     except Exception:
         return "C17:%s:%s" % (tag, " ".join(map(str, toks[:200])))
 
@@ -186,7 +192,7 @@ if __name__ == "__main__":
         "observer group: remote IP sent as IPv4 number or eight IPv6 groups parsed by net/netip from the harness's own strings (not through getObserver); an IPv4-mapped IPv6 remote is the IPv4 address (what net.IP.To4 does)",
         "a connection's local and remote multiaddr never change; a Disconnected notification implies IsClosed() is true; 'the connection closes' is the Disconnected notification (removeConn)",
         "reading of 'a connection's report is withdrawn when it changes': a re-report whose content never counts (loopback / NAT64 / relayed / no thin waist / inconsistent transport / not at a listen address) still replaces the connection's previous report, which is withdrawn; /repo did not do this before 09ed564 (fix: observedaddrs: ...), the model follows the repaired code; a report with countable content on a closed connection or from a remote without IP is ignored; a nil observed address is no report (not generated)",
-        "listenAddrs() is constant during a case and returns a fresh slice (as Swarm.ListenAddresses does); each Manager method is one critical section (mutex not modelled); the worker channel, eventbus and NAT-type emitter are not modelled",
+        "listenAddrs() returns a fresh slice (as Swarm.ListenAddresses does) of the listen set current at the call; the listen set and ActivationThresh change only between operations (ops 6 / 7), never inside one; 'the activation threshold' is the current value of the package variable ActivationThresh (restored by the harness at the end of every case); a change of the listen set alone withdraws no earlier report (the code keeps it; the text does not demand more), the connection's next report is judged by the new set; each Manager method is one critical section (mutex not modelled); the worker channel, eventbus and NAT-type emitter are not modelled",
         "slices.SortFunc is modelled as insertion sort with the same total order (ties by Multiaddr.Compare = order of the ids the harness assigns by sorting with Compare)",
     ]
     standard_flow(ctx, dict(
@@ -201,9 +207,9 @@ if __name__ == "__main__":
              "on the real observedaddrs.Manager over real multiaddrs: 12 local addresses (TCP/QUIC/WebTransport/WS sharing thin waists, IPv4+IPv6, "
              "non-thin-waist), 18 remote IPs (same IP on several conns, IPv6 sharing a /64, sharing only a /56, other /56, IPv4-mapped, no IP), "
              "50 observed addresses of every class (public, private, loopback, NAT64, relayed, no thin waist, transports sharing a thin waist), "
-             "ActivationThresh set to 1..5 per case, phase-structured (build-up on hot addresses, churn, noise, teardown, late reports on closed conns) "
+             "ActivationThresh set to 1..5 per case before construction, connections of both directions (Stat().Direction inbound / outbound from the listen socket), in one case of three the listen set changes while connections stay open (listener closed / reopened / added, then tracked connections re-report) and ActivationThresh is raised / lowered after the manager exists, phase-structured (build-up on hot addresses, churn, noise, teardown, late reports on closed conns) "
              "plus a malformed stream; directed histories with 62..100 distinct observed addresses tracked for one local address before a change of report; "
-             "directed event-bus histories with two reports of one connection close together (the first held at listenAddrs() until the second is queued); 1 observe in 10 runs with a hook on the listenAddrs() call inside shouldRecordObservation that closes and disconnects "
+             "directed histories (60 each): listener closed under thresh-1 observers of A plus one connection vouching for B that then switches to A (A must not activate), reopened later; ActivationThresh raised above the observers of an advertised address and lowered again; connections of both directions at a listen address closed one by one through the real Disconnected notifiee; directed event-bus histories with two reports of one connection close together (the first held at listenAddrs() until the second is queued); 1 observe in 10 runs with a hook on the listenAddrs() call inside shouldRecordObservation that closes and disconnects "
              "the observed (or another) connection before the manager's lock is taken. After every op AddrsFor(q) for every listen address and two non-listen addresses and Addrs(0) are recorded as lists "
              "(order kept), compared with the Coq model (conform_case) and judged by the property monitor (monitor_case). Non-trivial = some answer was "
              "non-empty (an address crossed the threshold); distinct = distinct case lines among those. "
